@@ -270,6 +270,22 @@ func (p *p03) mkAlt() p03Tx {
 	return p03Tx{tx: tx, alt: true, desc: "alt:" + d}
 }
 
+// interHubRequestTx builds a request that arrives from the registered remote BitXHub with a proof that
+// verifies: two distinct validators of that hub signed it.
+func interHubRequestTx(w *harness.World, pier *harness.Key, from, to string, idx uint64) pb.Transaction {
+	pd := &pb.Payload{Content: []byte("content"), Hash: []byte(fmt.Sprintf("payload-hash-%d", idx))}
+	pdb, _ := pd.Marshal()
+	ib := &pb.IBTP{From: from, To: to, Index: idx, Type: pb.IBTP_INTERCHAIN, Payload: pdb}
+	digest := interHubHash(ib, pb.TransactionStatus_BEGIN)
+	var sigs [][]byte
+	for v := 0; v < 2; v++ {
+		s, _ := validatorKey(v).Priv.Sign(digest)
+		sigs = append(sigs, s)
+	}
+	proof, _ := (&pb.BxhProof{TxStatus: pb.TransactionStatus_BEGIN, MultiSign: sigs}).Marshal()
+	return harness.IBTPTx(pier, w.Nonce(pier.Addr), w.Stamp(), ib, proof, nil)
+}
+
 // forgedHubPair: a service of the registered remote BitXHub as source, a contract hosted on this relay chain as
 // destination - what the broker would emit if it let anybody speak for the other hub.
 func forgedHubPair() (string, string) {
